@@ -56,3 +56,15 @@ Theorem C10_domain_needed : exists (b : list N) cls m line file,
 Proof.
   exists map5, [97], [109], 0, None. exact CrossRelease.C10_dom32_needed.
 Qed.
+
+(* the COMPLETE writer of the pinned release (PinnedModel.v: F1 offsets, F2 header scan, F7 value-less
+   sourceFile header — the function compared byte for byte with the vendored release by the check):
+   whatever mapping bytes it is given, if its records are in the domain its file parses and is answered
+   by the pinned reader exactly as by the current reader, for every frame query and every line *)
+Theorem C10_snapshot_bytes_same_answers : forall b cls m line file, dom32 (recs_pinned b) = true ->
+  c_remap_frame_lines_pinned (Cs (recs_pinned b)) cls m line file
+  = Ok (c_remap_frame_lines (Cs (recs_pinned b)) cls m line file).
+Proof. exact CrossRelease.C10_snapshot_bytes_same_answers. Qed.
+Theorem C10_snapshot_bytes_parse : forall b, struct_wf (write_struct_snapshot (recs_pinned b)) = true ->
+  parse (snapshot_write b) = POk (Cs (recs_pinned b)).
+Proof. exact CrossRelease.C10_snapshot_bytes_parse. Qed.
